@@ -1,10 +1,10 @@
 //! C19 — suppression comments affect exactly their scope.
 //!
 //! Space: skeleton programs (one statement per line, ≤ 2 nested blocks) over the line alphabet
-//! {G0, GI, U, UG, DO, IF, END, BLANK} × one `---@diagnostic` comment (3 kinds × 6 code lists) placed on
+//! {G0, GI, U, UG, DO, IF, END, BLANK} × one or two `---@diagnostic` comments (3 kinds × code lists), each on
 //! its own line (indented or not) between any two lines, or trailing after any non-blank line.
-//! Oracle: D1 (with the comment) must equal D0 (comment replaced by a plain comment of identical
-//! shape) minus exactly the diagnostics in the scope the statement defines — in both directions.
+//! Oracle: D1 (with the comments) must equal D0 (every comment replaced by a plain comment of identical
+//! shape) minus exactly the union of the scopes the statement defines — in both directions.
 use crate::common::*;
 use serde_json::{Value, json};
 use vcore::*;
@@ -80,6 +80,9 @@ pub const CODES: [&[&str]; 6] = [
     &["unused", "deprecated"],
 ];
 
+/// code lists used when a program carries two comments (every code / one matching code each)
+pub const PAIR_CODES: [usize; 3] = [0, 1, 2];
+
 #[derive(Clone, Copy, PartialEq, Eq, Debug)]
 pub struct Cm {
     pub kind: usize,
@@ -102,12 +105,27 @@ impl Cm {
     fn matches(&self, code: &str) -> bool {
         CODES[self.codes].is_empty() || CODES[self.codes].contains(&code)
     }
+    fn json(&self) -> Value {
+        json!({"kind": KINDS[self.kind], "codes": CODES[self.codes].join(","), "at": self.pos,
+               "trailing": self.trailing, "indent": self.indent})
+    }
+    fn from_json(c: &Value) -> Option<Cm> {
+        Some(Cm {
+            kind: KINDS.iter().position(|k| Some(*k) == c["kind"].as_str())?,
+            codes: CODES.iter().position(|k| Some(k.join(",").as_str()) == c["codes"].as_str())?,
+            pos: c["at"].as_u64()? as usize,
+            trailing: c["trailing"].as_bool()?,
+            indent: c["indent"].as_bool()?,
+        })
+    }
 }
 
+/// One program: a skeleton plus one or two suppression comments. Comments are kept in text order
+/// (own-line comments inserted before the same skeleton line appear in vector order).
 #[derive(Clone, PartialEq, Eq, Debug)]
 pub struct Case {
     pub lines: Vec<L>,
-    pub cm: Cm,
+    pub cms: Vec<Cm>,
     pub final_nl: bool,
 }
 
@@ -130,77 +148,98 @@ pub fn valid_skeleton(lines: &[L]) -> bool {
     depth == 0
 }
 
+/// where things ended up in the text
+pub struct Layout {
+    pub with_comments: String,
+    pub plain_twin: String,
+    /// (text line, start column) of each comment, in `cms` order
+    pub at: Vec<(u32, u32)>,
+    /// text line -> skeleton line (None = a line holding only a comment)
+    pub skel: Vec<Option<usize>>,
+}
+
 impl Case {
     pub fn valid(&self) -> bool {
         let n = self.lines.len();
-        if !valid_skeleton(&self.lines) {
+        if !valid_skeleton(&self.lines) || self.cms.is_empty() || self.cms.len() > 2 {
             return false;
         }
-        if self.cm.trailing {
-            self.cm.pos < n && self.lines[self.cm.pos] != L::Blank && !self.cm.indent
-        } else {
-            self.cm.pos <= n
+        for c in &self.cms {
+            let ok = if c.trailing { c.pos < n && self.lines[c.pos] != L::Blank && !c.indent } else { c.pos <= n };
+            if !ok {
+                return false;
+            }
         }
+        if self.cms.len() == 2 {
+            let (a, b) = (&self.cms[0], &self.cms[1]);
+            // text order; one line hosts at most one trailing comment; an own-line comment before
+            // line p precedes a trailing comment on line p
+            if a.pos > b.pos || (a.trailing && b.trailing && a.pos == b.pos) || (a.trailing && !b.trailing && a.pos == b.pos) {
+                return false;
+            }
+        }
+        true
     }
 
-    /// (text with the suppression comment, text with the same-shape plain comment, column where the comment starts)
-    pub fn texts(&self) -> (String, String, u32) {
-        let cm = self.cm.text();
-        // same length, same position, but an ordinary comment: `---@` -> `--  `
-        let plain = format!("--  {}", &cm[4..]);
-        let build = |c: &str| -> (String, u32) {
+    pub fn layout(&self) -> Layout {
+        let build = |plain: bool| -> (String, Vec<(u32, u32)>, Vec<Option<usize>>) {
+            let text_of = |c: &Cm| {
+                let t = c.text();
+                // same length, same position, but an ordinary comment: `---@` -> `--  `
+                if plain { format!("--  {}", &t[4..]) } else { t }
+            };
             let mut out: Vec<String> = Vec::new();
-            let mut col = 0u32;
-            for (i, l) in self.lines.iter().enumerate() {
-                if !self.cm.trailing && self.cm.pos == i {
-                    col = if self.cm.indent { 2 } else { 0 };
-                    out.push(format!("{}{}", if self.cm.indent { "  " } else { "" }, c));
+            let mut skel: Vec<Option<usize>> = Vec::new();
+            let mut at = vec![(0u32, 0u32); self.cms.len()];
+            for i in 0..=self.lines.len() {
+                for (k, c) in self.cms.iter().enumerate() {
+                    if !c.trailing && c.pos == i {
+                        at[k] = (out.len() as u32, if c.indent { 2 } else { 0 });
+                        out.push(format!("{}{}", if c.indent { "  " } else { "" }, text_of(c)));
+                        skel.push(None);
+                    }
                 }
-                let mut t = l.text(i);
-                if self.cm.trailing && self.cm.pos == i {
-                    col = t.len() as u32 + 1;
-                    t.push(' ');
-                    t.push_str(c);
+                if i < self.lines.len() {
+                    let mut t = self.lines[i].text(i);
+                    for (k, c) in self.cms.iter().enumerate() {
+                        if c.trailing && c.pos == i {
+                            at[k] = (out.len() as u32, t.len() as u32 + 1);
+                            t.push(' ');
+                            t.push_str(&text_of(c));
+                        }
+                    }
+                    out.push(t);
+                    skel.push(Some(i));
                 }
-                out.push(t);
-            }
-            if !self.cm.trailing && self.cm.pos == self.lines.len() {
-                col = if self.cm.indent { 2 } else { 0 };
-                out.push(format!("{}{}", if self.cm.indent { "  " } else { "" }, c));
             }
             let mut s = out.join("\n");
             if self.final_nl {
                 s.push('\n');
             }
-            (s, col)
+            (s, at, skel)
         };
-        let (t1, col) = build(&cm);
-        let (t0, _) = build(&plain);
-        (t1, t0, col)
+        let (with_comments, at, skel) = build(false);
+        let (plain_twin, _, _) = build(true);
+        Layout { with_comments, plain_twin, at, skel }
     }
 
     pub fn witness(&self) -> Value {
-        json!({
-            "lines": self.lines.iter().map(|l| l.name()).collect::<Vec<_>>(),
-            "comment": {"kind": KINDS[self.cm.kind], "codes": CODES[self.cm.codes].join(","), "at": self.cm.pos,
-                        "trailing": self.cm.trailing, "indent": self.cm.indent},
-            "final_newline": self.final_nl,
-        })
+        let lines = self.lines.iter().map(|l| l.name()).collect::<Vec<_>>();
+        if self.cms.len() == 1 {
+            json!({"lines": lines, "comment": self.cms[0].json(), "final_newline": self.final_nl})
+        } else {
+            json!({"lines": lines, "comments": self.cms.iter().map(|c| c.json()).collect::<Vec<_>>(), "final_newline": self.final_nl})
+        }
     }
 
     pub fn from_witness(w: &Value) -> Option<Case> {
         let lines = w["lines"].as_array()?.iter().map(|x| x.as_str().and_then(L::from_name)).collect::<Option<Vec<L>>>()?;
-        let c = &w["comment"];
-        let kind = KINDS.iter().position(|k| Some(*k) == c["kind"].as_str())?;
-        let codes = CODES.iter().position(|k| Some(k.join(",").as_str()) == c["codes"].as_str())?;
-        let cm = Cm {
-            kind,
-            codes,
-            pos: c["at"].as_u64()? as usize,
-            trailing: c["trailing"].as_bool()?,
-            indent: c["indent"].as_bool()?,
+        let cms = if let Some(a) = w["comments"].as_array() {
+            a.iter().map(Cm::from_json).collect::<Option<Vec<Cm>>>()?
+        } else {
+            vec![Cm::from_json(&w["comment"])?]
         };
-        let case = Case { lines, cm, final_nl: w["final_newline"].as_bool()? };
+        let case = Case { lines, cms, final_nl: w["final_newline"].as_bool()? };
         case.valid().then_some(case)
     }
 }
@@ -208,7 +247,7 @@ impl Case {
 #[derive(Clone, Copy, PartialEq, Eq, Debug)]
 enum Class {
     Keep,
-    Suppress,
+    Suppress(usize),
     Open,
     OnComment,
 }
@@ -249,11 +288,9 @@ fn blocks(lines: &[L]) -> Blocks {
     Blocks { path, before }
 }
 
-/// judge one case given the two observed diagnostic lists
-pub fn judge(case: &Case, d1: &[D], d0: &[D], comment_col: u32) -> Verdict {
-    let n = case.lines.len();
-    let cm = &case.cm;
-    let c = cm.pos as u32; // text line of the comment (own-line: the inserted line; trailing: the host line)
+/// judge one case given the two observed diagnostic lists; the expected suppression is the union
+/// of the scopes of all comments of the program
+pub fn judge(case: &Case, lay: &Layout, d1: &[D], d0: &[D]) -> Verdict {
     if d0.iter().chain(d1.iter()).any(|d| d.sl != d.el) {
         return Verdict::Undecided("multi-line diagnostic");
     }
@@ -261,49 +298,50 @@ pub fn judge(case: &Case, d1: &[D], d0: &[D], comment_col: u32) -> Verdict {
         return Verdict::Undecided("skeleton has a syntax error");
     }
     let bl = blocks(&case.lines);
-    // candidates for "the enclosing block" of the comment
-    let cands: Vec<u8> = if !cm.trailing {
-        vec![bl.before[cm.pos]]
-    } else if case.lines[cm.pos].opener() {
-        // after `do` / `then` on the same line: the statement does not say which block encloses it
-        vec![bl.before[cm.pos], bl.before[cm.pos + 1]]
-    } else {
-        vec![bl.before[cm.pos + 1]]
-    };
-    let skel_line = |tl: u32| -> Option<usize> {
-        let tl = tl as usize;
-        if cm.trailing {
-            (tl < n).then_some(tl)
-        } else if tl < cm.pos {
-            Some(tl)
-        } else if tl == cm.pos {
-            None
-        } else {
-            (tl - 1 < n).then_some(tl - 1)
-        }
-    };
-    let classify = |d: &D| -> Class {
-        if d.sl == c && d.sc >= comment_col {
-            return Class::OnComment;
-        }
+    // candidates for "the enclosing block" of each comment
+    let cands: Vec<Vec<u8>> = case
+        .cms
+        .iter()
+        .map(|cm| {
+            if !cm.trailing {
+                vec![bl.before[cm.pos]]
+            } else if case.lines[cm.pos].opener() {
+                // after `do` / `then` on the same line: the statement does not say which block encloses it
+                vec![bl.before[cm.pos], bl.before[cm.pos + 1]]
+            } else {
+                vec![bl.before[cm.pos + 1]]
+            }
+        })
+        .collect();
+    let comment_only = |tl: u32| lay.skel.get(tl as usize).is_some_and(|s| s.is_none());
+    let class_for = |k: usize, d: &D| -> Class {
+        let cm = &case.cms[k];
+        let (c, _) = lay.at[k];
         if !cm.matches(&d.code) {
             return Class::Keep;
         }
         match cm.kind {
             0 => {
-                // the comment and the line directly after it
-                if d.sl == c + 1 { Class::Suppress } else { Class::Keep }
+                // "the comment and the line directly after it". When the following line(s) hold only
+                // another comment, whether the first code line after them still counts is left open.
+                if d.sl == c + 1 {
+                    Class::Suppress(k)
+                } else if d.sl > c + 1 && (c + 1..d.sl).all(comment_only) {
+                    Class::Open
+                } else {
+                    Class::Keep
+                }
             }
             1 => {
-                if d.sl == c { Class::Suppress } else { Class::Keep }
+                if d.sl == c { Class::Suppress(k) } else { Class::Keep }
             }
             _ => {
-                let Some(s) = skel_line(d.sl) else { return Class::Open };
-                let p = &bl.path[s];
-                let all = cands.iter().all(|b| p.contains(b));
-                let any = cands.iter().any(|b| p.contains(b));
+                let Some(Some(s)) = lay.skel.get(d.sl as usize) else { return Class::Open };
+                let p = &bl.path[*s];
+                let all = cands[k].iter().all(|b| p.contains(b));
+                let any = cands[k].iter().any(|b| p.contains(b));
                 if all {
-                    Class::Suppress
+                    Class::Suppress(k)
                 } else if !any {
                     Class::Keep
                 } else {
@@ -312,12 +350,26 @@ pub fn judge(case: &Case, d1: &[D], d0: &[D], comment_col: u32) -> Verdict {
             }
         }
     };
-    let rel = |d: &D| -> String {
-        if cm.kind == 2 {
+    let classify = |d: &D| -> Class {
+        if lay.at.iter().any(|(l, col)| d.sl == *l && d.sc >= *col) {
+            return Class::OnComment;
+        }
+        let cs: Vec<Class> = (0..case.cms.len()).map(|k| class_for(k, d)).collect();
+        if let Some(s) = cs.iter().find(|c| matches!(c, Class::Suppress(_))) {
+            *s
+        } else if cs.contains(&Class::Open) {
+            Class::Open
+        } else {
+            Class::Keep
+        }
+    };
+    let kinds = case.cms.iter().map(|c| KINDS[c.kind]).collect::<Vec<_>>().join("+");
+    let rel = |k: usize, d: &D| -> String {
+        if case.cms[k].kind == 2 {
             String::new()
         } else {
-            let k = d.sl as i64 - c as i64;
-            format!(":line{}{}{}", if k >= 0 { "+" } else { "" }, k, if d.sc == 0 { ":col0" } else { "" })
+            let r = d.sl as i64 - lay.at[k].0 as i64;
+            format!(":line{}{}{}", if r >= 0 { "+" } else { "" }, r, if d.sc == 0 { ":col0" } else { "" })
         }
     };
     let mut keep0: Vec<&D> = Vec::new();
@@ -325,34 +377,35 @@ pub fn judge(case: &Case, d1: &[D], d0: &[D], comment_col: u32) -> Verdict {
     for d in d0 {
         match classify(d) {
             Class::Keep => keep0.push(d),
-            Class::Suppress => n_sup += 1,
+            Class::Suppress(_) => n_sup += 1,
             Class::Open => n_open += 1,
             Class::OnComment => n_onc += 1,
         }
     }
     let mut bad: Vec<(String, String)> = Vec::new();
-    // direction 1: everything outside the scope is still reported
+    // direction 1: everything outside every scope is still reported
     let mut pool: Vec<&D> = d1.iter().collect();
     for d in &keep0 {
         if let Some(i) = pool.iter().position(|x| x == d) {
             pool.remove(i);
         } else {
+            let r = if case.cms.len() == 1 { rel(0, d) } else { String::new() };
             bad.push((
-                format!("hidden:{}{}", KINDS[cm.kind], rel(d)),
-                format!("{} is reported without the comment, lies outside the comment's scope (or has another code), but is hidden", d.short()),
+                format!("hidden:{kinds}{r}"),
+                format!("{} is reported without the comment(s), lies outside every comment's scope (or has another code), but is hidden", d.short()),
             ));
         }
     }
-    // direction 2: nothing inside the scope is still reported, nothing new appears
+    // direction 2: nothing inside a scope is still reported, nothing new appears
     for d in pool {
         match classify(d) {
-            Class::Suppress => bad.push((
-                format!("not-suppressed:{}{}", KINDS[cm.kind], rel(d)),
-                format!("{} lies in the comment's scope with a listed code but is still reported", d.short()),
+            Class::Suppress(k) => bad.push((
+                format!("not-suppressed:{}{}{}", KINDS[case.cms[k].kind], rel(k, d), if case.cms.len() == 2 { format!(":with-{}", KINDS[case.cms[1 - k].kind]) } else { String::new() }),
+                format!("{} lies in the scope of the {} comment with a listed code but is still reported", d.short(), KINDS[case.cms[k].kind]),
             )),
             Class::Keep => bad.push((
-                format!("appeared:{}{}", KINDS[cm.kind], rel(d)),
-                format!("{} is reported only when the suppression comment is present", d.short()),
+                format!("appeared:{kinds}"),
+                format!("{} is reported only when the suppression comment(s) are present", d.short()),
             )),
             Class::Open => {}
             Class::OnComment => n_onc += 1,
@@ -367,10 +420,10 @@ pub fn judge(case: &Case, d1: &[D], d0: &[D], comment_col: u32) -> Verdict {
 
 /// run one case on a workspace
 pub fn run_case(ws: &mut Ws, case: &Case) -> Verdict {
-    let (t1, t0, col) = case.texts();
-    let Some(d0) = ws.diagnose(&t0) else { return Verdict::Undecided("no diagnostics list") };
-    let Some(d1) = ws.diagnose(&t1) else { return Verdict::Undecided("no diagnostics list") };
-    judge(case, &flat_sorted(&d1), &flat_sorted(&d0), col)
+    let lay = case.layout();
+    let Some(d0) = ws.diagnose(&lay.plain_twin) else { return Verdict::Undecided("no diagnostics list") };
+    let Some(d1) = ws.diagnose(&lay.with_comments) else { return Verdict::Undecided("no diagnostics list") };
+    judge(case, &lay, &flat_sorted(&d1), &flat_sorted(&d0))
 }
 
 static MEMO: std::sync::Mutex<Option<std::collections::HashMap<String, Option<(String, String)>>>> = std::sync::Mutex::new(None);
@@ -397,40 +450,79 @@ fn signature_of(case: &Case, fresh: bool) -> Option<(String, String)> {
     out
 }
 
-/// delta-minimise over the engine's own vocabulary while the signature stays the same
+/// the direction of a failure: hidden / not-suppressed / appeared
+fn family(sig: &str) -> &str {
+    sig.split(':').next().unwrap_or("")
+}
+
+/// remove skeleton line i; None if a trailing comment sits on it
+fn without_line(c: &Case, i: usize) -> Option<Case> {
+    if c.cms.iter().any(|m| m.trailing && m.pos == i) {
+        return None;
+    }
+    let mut n = c.clone();
+    n.lines.remove(i);
+    for m in n.cms.iter_mut() {
+        if m.pos > i {
+            m.pos -= 1;
+        }
+    }
+    Some(n)
+}
+
+/// the trailing comment k keeps its line to itself: its host statement goes away
+fn host_to_own_line(c: &Case, k: usize) -> Option<Case> {
+    let m = c.cms[k];
+    if !m.trailing || c.cms.iter().enumerate().any(|(j, o)| j != k && o.trailing && o.pos == m.pos) {
+        return None;
+    }
+    let mut n = c.clone();
+    n.lines.remove(m.pos);
+    for (j, o) in n.cms.iter_mut().enumerate() {
+        if j == k {
+            o.trailing = false;
+        } else if o.pos > m.pos {
+            // comments at or before the host keep their line; later ones keep theirs too because the
+            // comment now occupies the host's line
+            o.pos -= 1;
+        }
+    }
+    Some(n)
+}
+
+/// Delta-minimise over the engine's own vocabulary while the failure stays in the same family
+/// (hidden / not-suppressed / appeared). The signature reported is that of the minimal case, so a
+/// one-comment defect found in a two-comment program is reported as the one-comment finding.
 pub fn minimise(case: &Case, sig: &str) -> Case {
-    let same = |c: &Case| signature_of(c, false).is_some_and(|(s, _)| s == sig);
+    let fam = family(sig).to_string();
+    let same = |c: &Case| c.valid() && signature_of(c, false).is_some_and(|(s, _)| family(&s) == fam);
     let mut cur = case.clone();
     loop {
         let mut progressed = false;
+        // one comment instead of two
+        if cur.cms.len() == 2 {
+            for k in 0..2 {
+                let mut cand = cur.clone();
+                cand.cms.remove(k);
+                if same(&cand) {
+                    cur = cand;
+                    progressed = true;
+                    break;
+                }
+            }
+        }
         // drop skeleton lines
         let mut i = 0;
         while i < cur.lines.len() {
-            let mut cand = cur.clone();
-            cand.lines.remove(i);
-            let ok_pos = if cur.cm.trailing {
-                if i == cur.cm.pos {
-                    false
-                } else {
-                    if cur.cm.pos > i {
-                        cand.cm.pos -= 1;
-                    }
-                    true
+            match without_line(&cur, i) {
+                Some(cand) if same(&cand) => {
+                    cur = cand;
+                    progressed = true;
                 }
-            } else {
-                if cur.cm.pos > i {
-                    cand.cm.pos -= 1;
-                }
-                true
-            };
-            if ok_pos && cand.valid() && same(&cand) {
-                cur = cand;
-                progressed = true;
-            } else {
-                i += 1;
+                _ => i += 1,
             }
         }
-        // drop an opener together with a closer (single drops would unbalance the skeleton)
+        // opener/closer pairs: drop both; `if gN then … end` -> `gN()`; both -> blank lines (numbering kept)
         'pairs: loop {
             for i in 0..cur.lines.len() {
                 if !cur.lines[i].opener() {
@@ -440,26 +532,36 @@ pub fn minimise(case: &Case, sig: &str) -> Case {
                     if cur.lines[j] != L::End {
                         continue;
                     }
-                    if cur.cm.trailing && (cur.cm.pos == i || cur.cm.pos == j) {
-                        continue;
+                    let mut cands: Vec<Case> = Vec::new();
+                    if let Some(a) = without_line(&cur, j).and_then(|a| without_line(&a, i)) {
+                        cands.push(a);
                     }
-                    let mut cand = cur.clone();
-                    cand.lines.remove(j);
-                    cand.lines.remove(i);
-                    let p = cur.cm.pos;
-                    cand.cm.pos = p - (p > i) as usize - (p > j) as usize;
-                    if cand.valid() && same(&cand) {
-                        cur = cand;
-                        progressed = true;
-                        continue 'pairs;
-                    }
-                    // `if gN then … end` whose only role is its condition's diagnostic: a plain `gN()` line
                     if cur.lines[i] == L::If {
-                        let mut cand = cur.clone();
-                        cand.lines.remove(j);
-                        cand.lines[i] = L::G0;
-                        cand.cm.pos = p - (p > j) as usize;
-                        if cand.valid() && same(&cand) {
+                        if let Some(mut a) = without_line(&cur, j) {
+                            a.lines[i] = L::G0;
+                            cands.push(a);
+                        }
+                    }
+                    {
+                        // blank both; a comment trailing on one of them keeps that line to itself
+                        let mut a = cur.clone();
+                        let mut ok = true;
+                        for l in [j, i] {
+                            if let Some(k) = a.cms.iter().position(|m| m.trailing && m.pos == l) {
+                                match host_to_own_line(&a, k) {
+                                    Some(b) => a = b,
+                                    None => ok = false,
+                                }
+                            } else {
+                                a.lines[l] = L::Blank;
+                            }
+                        }
+                        if ok {
+                            cands.push(a);
+                        }
+                    }
+                    for cand in cands {
+                        if same(&cand) {
                             cur = cand;
                             progressed = true;
                             continue 'pairs;
@@ -469,50 +571,27 @@ pub fn minimise(case: &Case, sig: &str) -> Case {
             }
             break;
         }
-        // moves that keep every other line where it is: a trailing comment's host statement goes away
-        // (the comment keeps the line to itself) …
-        if cur.cm.trailing && !cur.lines[cur.cm.pos].opener() && cur.lines[cur.cm.pos] != L::End {
-            let mut cand = cur.clone();
-            cand.lines.remove(cur.cm.pos);
-            cand.cm.trailing = false;
-            if cand.valid() && same(&cand) {
-                cur = cand;
-                progressed = true;
-            }
-        }
-        // … and an opener/closer pair becomes two blank lines (or the comment's own line, if it hosted it)
-        'blank: loop {
-            for i in 0..cur.lines.len() {
-                if !cur.lines[i].opener() {
-                    continue;
-                }
-                for j in i + 1..cur.lines.len() {
-                    if cur.lines[j] != L::End {
-                        continue;
-                    }
-                    let mut cand = cur.clone();
-                    cand.lines[i] = L::Blank;
-                    cand.lines[j] = L::Blank;
-                    if cur.cm.trailing && (cur.cm.pos == i || cur.cm.pos == j) {
-                        cand.lines.remove(cur.cm.pos);
-                        cand.cm.trailing = false;
-                    }
-                    if cand.valid() && same(&cand) {
+        // a trailing comment's host statement goes away (the comment keeps the line) …
+        for k in 0..cur.cms.len() {
+            let m = cur.cms[k];
+            if m.trailing && !cur.lines[m.pos].opener() && cur.lines[m.pos] != L::End {
+                if let Some(cand) = host_to_own_line(&cur, k) {
+                    if same(&cand) {
                         cur = cand;
                         progressed = true;
-                        continue 'blank;
                     }
                 }
             }
-            break;
         }
-        // a trailing comment becomes a comment on its own line above its host line
-        if cur.cm.trailing {
-            let mut cand = cur.clone();
-            cand.cm.trailing = false;
-            if cand.valid() && same(&cand) {
-                cur = cand;
-                progressed = true;
+        // … or the comment moves to its own line above its host
+        for k in 0..cur.cms.len() {
+            if cur.cms[k].trailing {
+                let mut cand = cur.clone();
+                cand.cms[k].trailing = false;
+                if same(&cand) {
+                    cur = cand;
+                    progressed = true;
+                }
             }
         }
         // simpler line kinds
@@ -520,7 +599,7 @@ pub fn minimise(case: &Case, sig: &str) -> Case {
             for s in cur.lines[i].simpler() {
                 let mut cand = cur.clone();
                 cand.lines[i] = *s;
-                if cand.valid() && same(&cand) {
+                if same(&cand) {
                     cur = cand;
                     progressed = true;
                     break;
@@ -528,21 +607,23 @@ pub fn minimise(case: &Case, sig: &str) -> Case {
             }
         }
         // fewer codes, no indent, no final newline
-        for k in 0..cur.cm.codes {
-            let mut cand = cur.clone();
-            cand.cm.codes = k;
-            if same(&cand) {
-                cur = cand;
-                progressed = true;
-                break;
+        for k in 0..cur.cms.len() {
+            for c in 0..cur.cms[k].codes {
+                let mut cand = cur.clone();
+                cand.cms[k].codes = c;
+                if same(&cand) {
+                    cur = cand;
+                    progressed = true;
+                    break;
+                }
             }
-        }
-        if cur.cm.indent {
-            let mut cand = cur.clone();
-            cand.cm.indent = false;
-            if same(&cand) {
-                cur = cand;
-                progressed = true;
+            if cur.cms[k].indent {
+                let mut cand = cur.clone();
+                cand.cms[k].indent = false;
+                if same(&cand) {
+                    cur = cand;
+                    progressed = true;
+                }
             }
         }
         if cur.final_nl {
@@ -563,31 +644,30 @@ fn violation_for(case: &Case, sig: &str) -> Option<Violation> {
     let min = minimise(case, sig);
     // confirm in a brand-new analysis (independent of whatever this thread analysed before)
     let (s2, detail) = signature_of(&min, true)?;
-    if s2 != sig {
+    if family(&s2) != family(sig) {
         return None;
     }
-    let (t1, _, _) = min.texts();
-    Some(Violation { signature: sig.to_string(), witness: min.witness(), detail: format!("{detail}; program: {t1:?}") })
+    Some(Violation { signature: s2, witness: min.witness(), detail: format!("{detail}; program: {:?}", min.layout().with_comments) })
 }
 
 pub fn replay(w: &Value) -> Option<Violation> {
     let case = Case::from_witness(w)?;
     let (sig, detail) = signature_of(&case, true)?;
-    let (t1, _, _) = case.texts();
-    Some(Violation { signature: sig, witness: w.clone(), detail: format!("{detail}; program: {t1:?}") })
+    Some(Violation { signature: sig, witness: w.clone(), detail: format!("{detail}; program: {:?}", case.layout().with_comments) })
 }
 
-/// all comment placements for a skeleton of n lines with at most `max_lines` text lines
-fn placements(lines: &[L], max_lines: usize) -> Vec<(usize, bool, bool)> {
+/// (pos, trailing, indent) of every placement of one comment in a skeleton
+fn placements(lines: &[L], own: bool, trailing: bool, indents: &[bool]) -> Vec<(usize, bool, bool)> {
     let n = lines.len();
     let mut v = Vec::new();
-    if n + 1 <= max_lines {
+    if own {
         for pos in 0..=n {
-            v.push((pos, false, false));
-            v.push((pos, false, true));
+            for &ind in indents {
+                v.push((pos, false, ind));
+            }
         }
     }
-    if n <= max_lines {
+    if trailing {
         for pos in 0..n {
             if lines[pos] != L::Blank {
                 v.push((pos, true, false));
@@ -597,6 +677,89 @@ fn placements(lines: &[L], max_lines: usize) -> Vec<(usize, bool, bool)> {
     v
 }
 
+struct Counters {
+    /// signature -> (least locally-minimal witness, raw cases)
+    best: std::sync::Mutex<std::collections::BTreeMap<String, (Violation, u64)>>,
+    not_reproduced: std::sync::atomic::AtomicU64,
+    panics: std::sync::atomic::AtomicU64,
+}
+
+/// Last step of the minimiser: the local minima of one defect differ in where the comments sit
+/// (trailing / own line, which block), so every raw case is finally reduced to the least
+/// (fewest lines and comments, then lexicographically first) locally-minimal witness that fails with
+/// the same signature. Deterministic: the least element of a set does not depend on discovery order.
+fn record(cn: &Counters, v: Violation) {
+    let rank = |x: &Violation| {
+        let n = x.witness["lines"].as_array().map_or(0, |a| a.len()) + x.witness["comments"].as_array().map_or(1, |a| a.len());
+        (n, x.witness.to_string())
+    };
+    let mut g = cn.best.lock().unwrap();
+    match g.get_mut(&v.signature) {
+        None => {
+            g.insert(v.signature.clone(), (v, 1));
+        }
+        Some(e) => {
+            e.1 += 1;
+            if rank(&v) < rank(&e.0) {
+                e.0 = v;
+            }
+        }
+    }
+}
+
+fn run_one(case: &Case, st: &mut Stats, cn: &Counters, sample_pick: bool) {
+    use std::sync::atomic::Ordering::Relaxed;
+    let pair = case.cms.len() == 2;
+    match with_ws(|ws| run_case(ws, case)) {
+        Err(_) => {
+            cn.panics.fetch_add(1, Relaxed);
+            st.undecided += 1;
+            st.outcome("panic (undecided here; C12)");
+        }
+        Ok(Verdict::Undecided(why)) => {
+            st.undecided += 1;
+            st.outcome(&format!("undecided: {why}"));
+        }
+        Ok(Verdict::Ok { d0, suppressed, open, on_comment }) => {
+            st.eval(d0 > 0);
+            if open > 0 {
+                st.outcome("some diagnostics left open (comment after a block opener / next line is a comment)");
+            }
+            if on_comment > 0 {
+                st.outcome("diagnostic on the comment itself (ignored)");
+            }
+            let what = if d0 == 0 {
+                "nothing to suppress"
+            } else if suppressed == 0 {
+                "nothing in scope, all kept"
+            } else if suppressed == d0 {
+                "everything in scope, all hidden"
+            } else {
+                "exactly the scope hidden, rest kept"
+            };
+            st.outcome(&format!("ok ({}): {what}", if pair { "two comments" } else { "one comment" }));
+            if suppressed > 0 && suppressed < d0 && sample_pick {
+                st.sample(|| json!({"program": case.layout().with_comments, "diagnostics_without_comments": d0, "hidden_by_comments": suppressed}));
+            }
+        }
+        Ok(Verdict::Bad(sig, _)) => {
+            st.eval(true);
+            st.outcome(&format!("VIOLATION {}", family(&sig)));
+            match violation_for(case, &sig) {
+                Some(v) => {
+                    st.raw_violating_cases += 1;
+                    record(cn, v);
+                }
+                None => {
+                    cn.not_reproduced.fetch_add(1, Relaxed);
+                    st.undecided += 1;
+                    st.outcome("not reproduced in a fresh analysis (not reported)");
+                }
+            }
+        }
+    }
+}
+
 pub fn run(args: &Args) -> ! {
     if let Some(w) = args.replay_witness() {
         finish_replay(replay(&w["witness"]).or_else(|| replay(&w)), "C19");
@@ -604,14 +767,18 @@ pub fn run(args: &Args) -> ! {
     let dl = args.deadline();
     let mut rep = Report::new("C19", "exploration");
     let max_lines = args.extra_usize("lines").unwrap_or(args.tier.pick(5, 6));
+    let pair_lines = args.extra_usize("pairlines").unwrap_or(args.tier.pick(4, 5));
     let mut all = Stats::default();
-    let mut completed: Option<usize> = None;
+    let cn = Counters { best: Default::default(), not_reproduced: 0.into(), panics: 0.into() };
+    let quick = args.tier == Tier::Quick;
+
+    // ---- phase 1: one comment. Bound iterated upward over skeleton lines n (text lines = n or n+1).
+    let mut completed1: Option<usize> = None;
     let mut skeletons = 0u64;
-    let not_reproduced = std::sync::atomic::AtomicU64::new(0);
-    let panics = std::sync::atomic::AtomicU64::new(0);
-    // bound iterated upward: skeletons of n = 0,1,… lines (text lines = n or n+1)
     for n in 0..=max_lines {
         let total = pow(LINES.len() as u64, n as u32);
+        // quick tier: at the largest skeleton size only programs without a final newline
+        let nls: &[bool] = if quick && n == max_lines { &[false] } else { &[false, true] };
         let (st, ok) = par_range(total, args.threads, &dl, |i, st| {
             let mut w = Vec::new();
             decode_word(i, LINES.len() as u64, n, &mut w);
@@ -620,59 +787,12 @@ pub fn run(args: &Args) -> ! {
                 return;
             }
             st.outcome("skeleton");
-            for (pos, trailing, indent) in placements(&lines, max_lines) {
+            for (pos, trailing, indent) in placements(&lines, n + 1 <= max_lines, n <= max_lines, &[false, true]) {
                 for kind in 0..KINDS.len() {
                     for codes in 0..CODES.len() {
-                        for final_nl in [false, true] {
-                            let case = Case { lines: lines.clone(), cm: Cm { kind, codes, pos, trailing, indent }, final_nl };
-                            let r = with_ws(|ws| run_case(ws, &case));
-                            match r {
-                                Err(_) => {
-                                    panics.fetch_add(1, std::sync::atomic::Ordering::Relaxed);
-                                    st.undecided += 1;
-                                    st.outcome("panic (undecided here; C12)");
-                                }
-                                Ok(Verdict::Undecided(why)) => {
-                                    st.undecided += 1;
-                                    st.outcome(&format!("undecided: {why}"));
-                                }
-                                Ok(Verdict::Ok { d0, suppressed, open, on_comment }) => {
-                                    st.eval(d0 > 0);
-                                    if open > 0 {
-                                        st.outcome("some diagnostics left open (comment after a block opener)");
-                                    }
-                                    if on_comment > 0 {
-                                        st.outcome("diagnostic on the comment itself (ignored)");
-                                    }
-                                    st.outcome(if d0 == 0 {
-                                        "ok: nothing to suppress"
-                                    } else if suppressed == 0 {
-                                        "ok: nothing in scope, all kept"
-                                    } else if suppressed == d0 {
-                                        "ok: everything in scope, all hidden"
-                                    } else {
-                                        "ok: exactly the scope hidden, rest kept"
-                                    });
-                                    if suppressed > 0 && suppressed < d0 && (i + pos as u64) % 97 == 0 {
-                                        st.sample(|| {
-                                            let (t1, _, _) = case.texts();
-                                            json!({"program": t1, "diagnostics_without_comment": d0, "hidden_by_comment": suppressed})
-                                        });
-                                    }
-                                }
-                                Ok(Verdict::Bad(sig, _)) => {
-                                    st.eval(true);
-                                    st.outcome(&format!("VIOLATION {}", sig.split(':').next().unwrap_or("")));
-                                    match violation_for(&case, &sig) {
-                                        Some(v) => st.violation(v),
-                                        None => {
-                                            not_reproduced.fetch_add(1, std::sync::atomic::Ordering::Relaxed);
-                                            st.undecided += 1;
-                                            st.outcome("not reproduced in a fresh analysis (not reported)");
-                                        }
-                                    }
-                                }
-                            }
+                        for &final_nl in nls {
+                            let case = Case { lines: lines.clone(), cms: vec![Cm { kind, codes, pos, trailing, indent }], final_nl };
+                            run_one(&case, st, &cn, (i + pos as u64) % 97 == 0);
                         }
                     }
                 }
@@ -681,25 +801,90 @@ pub fn run(args: &Args) -> ! {
         skeletons += st.outcomes.get("skeleton").copied().unwrap_or(0);
         all.merge(st);
         if ok {
-            completed = Some(n);
+            completed1 = Some(n);
         } else {
             break;
         }
     }
     all.outcomes.remove("skeleton");
+
+    // ---- phase 2: two comments (all ordered pairs of kind × code list), text lines ≤ pair_lines
+    let mut completed2: Option<usize> = None;
+    let mut pair_skeletons = 0u64;
+    if completed1 == Some(max_lines) {
+        for n in 0..=pair_lines {
+            let total = pow(LINES.len() as u64, n as u32);
+            let (st, ok) = par_range(total, args.threads, &dl, |i, st| {
+                let mut w = Vec::new();
+                decode_word(i, LINES.len() as u64, n, &mut w);
+                let lines: Vec<L> = w.iter().map(|&x| LINES[x]).collect();
+                if !valid_skeleton(&lines) {
+                    return;
+                }
+                st.outcome("skeleton");
+                let pl = placements(&lines, true, true, &[false]);
+                // every ordered pair of placements; `valid` keeps exactly the text-ordered ones
+                for a in pl.iter() {
+                    for b in pl.iter() {
+                        let own = (!a.1) as usize + (!b.1) as usize;
+                        if n + own > pair_lines {
+                            continue;
+                        }
+                        for ka in 0..KINDS.len() {
+                            for &ca in &PAIR_CODES {
+                                for kb in 0..KINDS.len() {
+                                    for &cb in &PAIR_CODES {
+                                        let case = Case {
+                                            lines: lines.clone(),
+                                            cms: vec![
+                                                Cm { kind: ka, codes: ca, pos: a.0, trailing: a.1, indent: a.2 },
+                                                Cm { kind: kb, codes: cb, pos: b.0, trailing: b.1, indent: b.2 },
+                                            ],
+                                            final_nl: false,
+                                        };
+                                        if !case.valid() {
+                                            continue;
+                                        }
+                                        run_one(&case, st, &cn, (i + ka as u64 + kb as u64) % 89 == 0);
+                                    }
+                                }
+                            }
+                        }
+                    }
+                }
+            });
+            pair_skeletons += st.outcomes.get("skeleton").copied().unwrap_or(0);
+            all.merge(st);
+            if ok {
+                completed2 = Some(n);
+            } else {
+                break;
+            }
+        }
+        all.outcomes.remove("skeleton");
+    }
+
+    for (_, (v, n)) in std::mem::take(&mut *cn.best.lock().unwrap()) {
+        all.violations.insert(format!("{}:{}", v.signature, v.witness), (v, n));
+    }
+
     rep.rule = format!(
-        "every skeleton of ≤{max_lines} text lines over the line alphabet {{BLANK, `gN()` at column 0, indented `gN()`, `local uN = 1`, `local vN = gN()` (two codes on one line), `do`, `if gN then`, `end`}} (balanced, depth ≤ 2) × every `---@diagnostic` comment of kinds {KINDS:?} × code lists {{none, undefined-global, unused, deprecated (non-matching), undefined-global+unused, unused+deprecated}} × every placement (own line before each line / after the last, indented or not; trailing after each non-blank line) × {{with, without}} final newline. Oracle: diagnostics with the comment == diagnostics with the comment turned into a same-length plain comment, minus exactly those whose code is listed (or any code if no list) and whose line is the next line (disable-next-line) / the comment's line (disable-line) / inside the enclosing block, whole file at top level (disable); compared as multisets in both directions. non-trivial = the program has at least one diagnostic. A violating case is minimised and confirmed in a fresh analysis before it is reported."
+        "Skeletons: one statement per line over {{BLANK, `gN()` at column 0, indented `gN()`, `local uN = 1`, `local vN = gN()` (two codes on one line), `do`, `if gN then`, `end`}}, balanced, depth ≤ 2. (1) ONE comment: every skeleton of ≤{max_lines} text lines × every `---@diagnostic` comment of kinds {KINDS:?} × code lists {{none, undefined-global, unused, deprecated (non-matching), undefined-global+unused, unused+deprecated}} × every placement (own line before each line / after the last, indented or not; trailing after each non-blank line) × {{without, with}} final newline{}. (2) TWO comments: every skeleton of ≤{pair_lines} text lines × every ordered pair of (kind × code list in {{none, undefined-global, unused}}) × every pair of placements in text order (own line / trailing, two own-line comments may be adjacent), no final newline. Oracle: diagnostics with the comment(s) == diagnostics with every comment turned into a same-length plain comment, minus exactly the union over the comments of {{listed code (any code if no list) ∧ line is the next line (disable-next-line) / the comment's line (disable-line) / inside the enclosing block, whole file at top level (disable)}}; multisets, both directions. non-trivial = the program has at least one diagnostic. A violating case is minimised (same failure direction), confirmed in a fresh analysis, and reported under the least minimal witness of its signature.",
+        if quick { format!(" (quick: skeletons of exactly {max_lines} lines only without)") } else { String::new() }
     );
-    rep.exhaustive = completed == Some(max_lines);
-    rep.bounds = json!({"max_text_lines": max_lines, "skeleton_lines_completed": completed, "skeletons": skeletons,
-        "line_alphabet": LINES.len(), "comment_kinds": KINDS.len(), "code_lists": CODES.len(),
+    rep.exhaustive = completed1 == Some(max_lines) && completed2 == Some(pair_lines);
+    rep.bounds = json!({"max_text_lines_one_comment": max_lines, "skeleton_lines_completed_one_comment": completed1, "skeletons_one_comment": skeletons,
+        "max_text_lines_two_comments": pair_lines, "skeleton_lines_completed_two_comments": completed2, "skeletons_two_comments": pair_skeletons,
+        "line_alphabet": LINES.len(), "comment_kinds": KINDS.len(), "code_lists": CODES.len(), "pair_code_lists": PAIR_CODES.len(),
         "wall_cap_s": args.wall_cap_s, "wall_cap_hit": dl.was_hit()});
     rep.assumptions = vec![
         "a trailing `disable` comment on the line of a block opener leaves open which block encloses it: diagnostics between the two candidate blocks are not judged".into(),
-        "diagnostics on the comment's own text are ignored; only single-line diagnostics are judged; only \\n line ends".into(),
+        "when the line after a disable-next-line comment holds only the other comment, the first code line after it is not judged (the statement does not say whether stacked comments share their next line)".into(),
+        "diagnostics on a comment's own text are ignored; only single-line diagnostics are judged; only \\n line ends".into(),
         "one analysis per worker thread is reused across cases (file replaced in place); every violation is re-confirmed in a fresh analysis".into(),
     ];
-    rep.set("not_reproduced_in_fresh_analysis", json!(not_reproduced.load(std::sync::atomic::Ordering::Relaxed)));
-    rep.set("panics", json!(panics.load(std::sync::atomic::Ordering::Relaxed)));
+    use std::sync::atomic::Ordering::Relaxed;
+    rep.set("not_reproduced_in_fresh_analysis", json!(cn.not_reproduced.load(Relaxed)));
+    rep.set("panics", json!(cn.panics.load(Relaxed)));
     rep.finish(args, all)
 }
